@@ -280,7 +280,27 @@ theorem exec_inv {c : FxVerif.Gen.C11.Cfg} (hg : good c = true) {s s' : State} {
   | block =>
     simp only [State.exec] at h
     cases h
-    exact ⟨hi, rfl⟩
+    refine ⟨fun w => ?_, rfl⟩
+    show SumInv s.nAcc ((s.vs w).endBlock s.height)
+    unfold VS.endBlock
+    dsimp only
+    split
+    · exact hi w
+    · split
+      · exact hi w
+      · exact hi w
+  | jail v =>
+    simp only [State.exec] at h
+    split at h
+    · cases h
+    · cases h
+      exact ⟨StInv_setVS hi (hi v), rfl⟩
+  | unjail v =>
+    simp only [State.exec] at h
+    split at h
+    · cases h
+    · cases h
+      exact ⟨StInv_setVS hi (hi v), rfl⟩
 
 theorem step_inv {c : FxVerif.Gen.C11.Cfg} (hg : good c = true) {s : State} (o : Op) (hi : StInv s) :
     StInv (s.step c o) ∧ (s.step c o).nAcc = s.nAcc := by
